@@ -1756,8 +1756,46 @@ def p_list(ctx, interp, args, kwargs, node):
         h = ctx.hooks.get('list_of')
         if h:
             return h(ctx, args[0], node)
+        r = keys_list(ctx, args[0], node, ordered=False)
+        if r is not None:
+            return r
         raise Unsupported('list() of symbolic iterable', node)
     return ctx.new_obj('list', meta={'items': conc})
+
+
+def keys_list(ctx, it, node, ordered):
+    """the keys of a symbolic map as a symbolic list: each key exactly once (multiset view = the domain), every
+    element a key, every key at some index; ascending if `ordered` (sorted()), in no particular order otherwise
+    (list(map), sorted(..., key/reverse)).  None if `it` is not such a map."""
+    from .ground import All, base_array
+    m = None
+    if isinstance(it, VFunc) and it.kind == 'iterview' and it.name in ('keys', 'iterkeys'):
+        m = ctx.obj(it.selfv)
+    elif isinstance(it, VRef) and ctx.obj(it).kind == 'map':
+        m = ctx.obj(it)
+    if m is None or m.kind != 'map' or not m.meta['keykind'].startswith('bytes'):
+        return None
+    role = ctx.roles.arrays.get(base_array(m.f['dom']).get_id())
+    if role is None:
+        return None
+    r = new_slist(ctx, m.meta['keykind'], 'sorted_keys' if ordered else 'listed_keys', bag=True)
+    o = ctx.obj(r)
+    arr, ln, bag, md = o.f['arr'], o.f['len'], o.f['bag'], m.f['dom']
+    ctx.roles.array(bag, role)
+    ctx.roles.array(arr, 'sidx')
+    o.meta['keys_of'] = md
+    ctx.assume(All([role], lambda k: z3.Select(bag, k) == z3.If(z3.Select(md, k), 1, 0)))
+    ctx.assume(All(['sidx'], lambda i: z3.Implies(z3.And(i >= 0, i < ln), z3.Select(md, z3.Select(arr, i)))))
+    if ordered:
+        ctx.assume(All(['sidx', 'sidx'], lambda i, j: z3.Implies(
+            z3.And(i >= 0, i < j, j < ln), z3.Select(arr, i) < z3.Select(arr, j))))
+    # ghost: where each key sits in the list (every key occurs)
+    at = z3.Array(fresh_name('index_of_key'), I, I)
+    ctx.roles.array(at, role)
+    o.meta['index_of_key'] = at
+    ctx.assume(All([role], lambda k: z3.Implies(z3.Select(md, k), z3.And(
+        z3.Select(at, k) >= 0, z3.Select(at, k) < ln, z3.Select(arr, z3.Select(at, k)) == k))))
+    return r
 
 
 @prim('builtins.sorted')
@@ -1766,6 +1804,19 @@ def p_sorted(ctx, interp, args, kwargs, node):
     view is the domain (what the modelled consumers use: iteration, extend, membership)"""
     from .ground import All, base_array
     it = args[0] if args else None
+    if kwargs and len(args) == 1 and concrete_iter(ctx, it, node) is None:
+        # sorted(x, key=..., reverse=...): SOME rearrangement of the elements (the order itself is not modelled)
+        if isinstance(it, VRef) and ctx.obj(it).kind == 'slist':
+            src = ctx.obj(it)
+            r = new_slist(ctx, src.meta['elemkind'], 'rearranged', bag='bag' in src.f)
+            o = ctx.obj(r)
+            ctx.assume(o.f['len'] == src.f['len'])
+            if 'bag' in src.f:
+                o.f['bag'] = src.f['bag']
+            return r
+        r = keys_list(ctx, it, node, ordered=False)
+        if r is not None:
+            return r
     if kwargs or len(args) != 1:
         raise Unsupported('sorted() with key/reverse', node)
     conc = concrete_iter(ctx, it, node)
@@ -1776,32 +1827,9 @@ def p_sorted(ctx, interp, args, kwargs, node):
             order = sorted(range(len(conc)), key=lambda i: vals[i])
             return ctx.new_obj('list', meta={'items': [conc[i] for i in order]})
         raise Unsupported('sorted() of symbolic values', node)
-    m = None
-    if isinstance(it, VFunc) and it.kind == 'iterview' and it.name in ('keys', 'iterkeys'):
-        m = ctx.obj(it.selfv)
-    elif isinstance(it, VRef) and ctx.obj(it).kind == 'map':
-        m = ctx.obj(it)
-    if m is None or m.kind != 'map' or not m.meta['keykind'].startswith('bytes'):
+    r = keys_list(ctx, it, node, ordered=True)
+    if r is None:
         raise Unsupported('sorted() of %r' % (it,), node)
-    role = ctx.roles.arrays.get(base_array(m.f['dom']).get_id())
-    if role is None:
-        raise Unsupported('sorted() of a map without a key role', node)
-    r = new_slist(ctx, m.meta['keykind'], 'sorted_keys', bag=True)
-    o = ctx.obj(r)
-    arr, ln, bag, md = o.f['arr'], o.f['len'], o.f['bag'], m.f['dom']
-    ctx.roles.array(bag, role)
-    ctx.roles.array(arr, 'sidx')
-    o.meta['keys_of'] = md
-    ctx.assume(All([role], lambda k: z3.Select(bag, k) == z3.If(z3.Select(md, k), 1, 0)))
-    ctx.assume(All(['sidx'], lambda i: z3.Implies(z3.And(i >= 0, i < ln), z3.Select(md, z3.Select(arr, i)))))
-    ctx.assume(All(['sidx', 'sidx'], lambda i, j: z3.Implies(
-        z3.And(i >= 0, i < j, j < ln), z3.Select(arr, i) < z3.Select(arr, j))))
-    # ghost: where each key sits in the list (every key occurs)
-    at = z3.Array(fresh_name('index_of_key'), I, I)
-    ctx.roles.array(at, role)
-    o.meta['index_of_key'] = at
-    ctx.assume(All([role], lambda k: z3.Implies(z3.Select(md, k), z3.And(
-        z3.Select(at, k) >= 0, z3.Select(at, k) < ln, z3.Select(arr, z3.Select(at, k)) == k))))
     return r
 
 
